@@ -2,9 +2,11 @@
 // only signature shares valid for the block being signed).
 //
 // It drives the REAL signing round of go-rangers in-process:
-//   net.UnMarshalConsensusVerifyMessage -> Processor.OnMessageVerify ->
-//   loadOrNewSignParty -> baseParty.Update -> round1.Start/Update ->
-//   groupSignGenerator -> round2.Start/checkSignature -> GenerateBlock
+//
+//	net.UnMarshalConsensusVerifyMessage -> Processor.OnMessageVerify ->
+//	loadOrNewSignParty -> baseParty.Update -> round1.Start/Update ->
+//	groupSignGenerator -> round2.Start/checkSignature -> GenerateBlock
+//
 // with real bn256 threshold keys, an in-memory chain stub and the verif hook
 // VerifC15NewRound (which only injects what round0 established).
 //
@@ -95,13 +97,17 @@ func main() {
 // scripts (recipes): the replayable text form of one scenario
 
 // A script is a list of lines:
-//   script n=<n> pk=<csv of member/outsider indexes with a registered sign pk> prand=<64|32|hash|empty> exists=<0|1>
-//   early <recipe>     (stored while the party is still in round0)
-//   enter
-//   m <recipe>
-//   chain <0|1>
+//
+//	script n=<n> pk=<csv of member/outsider indexes with a registered sign pk> prand=<64|32|hash|empty> exists=<0|1>
+//	early <recipe>     (stored while the party is still in round0)
+//	enter
+//	m <recipe>
+//	chain <0|1>
+//
 // recipe: wire=<ok|proto|nosign|emptysig> filed=<D> signer=<idx> idenc=<ok|pad|over|zero>
-//         dh=<D> sig=<S> rand=<S> ver=<int>
+//
+//	dh=<D> sig=<S> rand=<S> ver=<int>
+//
 // D: H (block hash) | R (previous beacon value, as a 32-byte hash) | X1..X9
 // S: nil | short | empty | junk | inf | rnd | s.<idx>.<D>  with optional suffix +t (trailing bytes)
 type script struct {
